@@ -84,7 +84,7 @@ pub fn main(args: &[String]) {
                 Outcome::Err(e) => { n_err += 1; if valid { viol.push(Json::obj(vec![("class", Json::s("walrus-rejects-valid-module")), ("props", Json::s("C05")), ("what", Json::s(format!("{}: walrus rejects a module the reference validator accepts: {}", name, e))), ("input", Json::s(crate::c03::hex(wasm)))])); } (1, "[]".to_string(), None) }
                 Outcome::Panic => { n_panic += 1; viol.push(Json::obj(vec![("class", Json::s(if cfg.gc { "walrus-panics-after-gc" } else { "walrus-panics-on-valid-module" })), ("props", Json::s("C02 C05 C06")), ("what", Json::s(format!("{}: walrus panics (gc={})", name, cfg.gc))), ("input", Json::s(crate::c03::hex(wasm)))])); (2, "[]".to_string(), None) }
             };
-            if let Some(o) = &out_bytes { if let Err(e) = amod::validate(o, feats) { viol.push(Json::obj(vec![("class", Json::s(if cfg.gc { if e.contains("undeclared function reference") { "gc-output-invalid:undeclared-function-reference" } else { "output-invalid-after-gc" } } else { "output-invalid" })), ("props", Json::s(if cfg.gc { "C02 C06" } else { "C02" })), ("what", Json::s(format!("{}: emitted module does not validate (gc={}): {}", name, cfg.gc, e))), ("input", Json::s(crate::c03::hex(wasm)))])); } }
+            if let Some(o) = &out_bytes { if let Err(e) = amod::validate(o, feats) { viol.push(Json::obj(vec![("class", Json::s(if cfg.gc { if e.contains("undeclared function reference") { amod::decode(wasm).map(|a| crate::oracles::undeclared_class(&a)).unwrap_or("output-invalid-after-gc") } else { "output-invalid-after-gc" } } else { "output-invalid" })), ("props", Json::s(if cfg.gc { "C02 C06" } else { "C02" })), ("what", Json::s(format!("{}: emitted module does not validate (gc={}): {}", name, cfg.gc, e))), ("input", Json::s(crate::c03::hex(wasm)))])); } }
             let ver = format!("[{}]", VERSION.bytes().map(|b| b.to_string()).collect::<Vec<_>>().join(";"));
             let line = format!("Build_mcase {} {} {} {} [] {} {}", cfg.coq(), ver, win, cfg.gc, obs, wout);
             if !valid { continue; }   // the models take validation as a premise; verdicts on invalid inputs are compared by the C05 oracle
